@@ -454,7 +454,7 @@ def listOracle (items : List ListedItem) (gv gver gt : Option (List Char)) (np n
     | none => (false, "sig=no-status")
   | _ => (false, "sig=bad-output")
 
-def handle (args out : List String) : Verdict :=
+def handleCore (args out : List String) : Verdict :=
   match args with
   | ["html", h] =>
     match (hex? h).bind chars?, out with
@@ -553,5 +553,28 @@ def handle (args out : List String) : Verdict :=
       | _, _, _ => .bad "list: a string parameter is not valid UTF-8"
     | _, _, _, _, _, _, _ => .bad "list args"
   | _ => .bad "C17 shape"
+
+/-- `%XX` decoding of a request path segment as `net/url` does it (the generator only writes valid escapes) -/
+def hexVal? (c : UInt8) : Option UInt8 :=
+  if 48 ≤ c ∧ c ≤ 57 then some (c - 48) else if 65 ≤ c ∧ c ≤ 70 then some (c - 55) else if 97 ≤ c ∧ c ≤ 102 then some (c - 87) else none
+
+def pctDecode : Bytes → Option Bytes
+  | [] => some []
+  | 37 :: h :: l :: rest =>
+    match hexVal? h, hexVal? l, pctDecode rest with
+    | some h, some l, some r => some ((h * 16 + l) :: r)
+    | _, _, _ => none
+  | 37 :: _ => none
+  | c :: rest => (pctDecode rest).map (c :: ·)
+
+/-- `viewraw <state> <address> <wire>`: the view request as spelt on the wire with percent-escapes; the answer is that of
+`view <state> <address>` (the path parameter is the DECODED segment) -/
+def handle (args out : List String) : Verdict :=
+  match args with
+  | ["viewraw", st, ah, wh] =>
+    match hex? ah, (hex? wh).bind pctDecode with
+    | some a, some w => if a = w then handleCore ["view", st, ah] out else .bad "viewraw: wire does not decode to the address"
+    | _, _ => .bad "viewraw args"
+  | _ => handleCore args out
 
 end Swat4.Drv.C17
